@@ -88,6 +88,31 @@ EXC_CLASSES = {"ValueError": ValueError, "KeyError": KeyError, "ZeroDivisionErro
                "AssertionError": AssertionError, "OSError": OSError, "BadStrError": BadStrError, "BadReprError": BadReprError,
                "NonStrError": NonStrError, "BadArgError": BadArgError, "FormatError": FormatError}
 EXC_CLASSES.update(HOMONYMS)
+
+
+# exception classes with a LONG ancestry ("exceptions of any class"): layered hierarchies (each layer derives from the one below,
+# rooted in the application's base error) and one class with many mixins.  The key says how long the MRO is (= len(Failure.parents),
+# most derived class first, the root-most classes -- what callers trap on -- last)
+class AppBaseError(Exception):
+    """root of an application's hierarchy: what its callers trap"""
+
+
+def _layered(mro_len):
+    c = AppBaseError                      # MRO: AppBaseError, Exception, BaseException, object
+    for i in range(1, mro_len - 4 + 1):
+        c = type("Layer%dOf%dError" % (i, mro_len), (c,), {"__module__": __name__})
+    return c
+
+
+def _mixed(n_mixins):
+    mix = [type("Mixin%d" % i, (object,), {"__module__": __name__}) for i in range(n_mixins)]
+    return type("MixedError", tuple(mix) + (AppBaseError,), {"__module__": __name__})
+
+
+DEEP_MRO = (29, 30, 31, 32, 33, 35, 64, 65, 129, 257)       # around the customary list limits (30; 64 / 128 / 256)
+DEEP_CLASSES = dict(("Mro%d" % n, _layered(n)) for n in DEEP_MRO)
+DEEP_CLASSES["Mixins45"] = _mixed(40)                       # MRO: the class, 40 mixins, AppBaseError, Exception, BaseException, object
+EXC_CLASSES.update(DEEP_CLASSES)
 # foolscap's own exception classes, raised by the application code of the callee (or relayed through a middle party)
 from foolscap.tokens import BananaError as _BananaError, NegotiationError as _NegotiationError
 from foolscap.ipb import DeadReferenceError as _DeadReferenceError
@@ -452,9 +477,31 @@ def vocab_value(spec):
             "list": [w.encode("ascii"), w, w.encode("ascii")]}[spec["as"]]
 
 
+class _OneWay:
+    """stands for a RemoteReference; every callRemote is issued as callRemoteOnly (request id 0: nobody waits for an answer)"""
+
+    def __init__(self, rr):
+        self.rr = rr
+
+    def callRemote(self, name, *a, **kw):
+        got = self.rr.callRemoteOnly(name, *a, **kw)
+        if got is not None:
+            raise AssertionError("callRemoteOnly returned %r" % (got,))
+        return None
+
+
+ONE_WAY_TARGETS = ("plain", "badrepr", "typed", "typed_known", "bogus", "relay")
+
+
 def issue(rrs, spec):
-    """spec: dict(kind=..., ...) -> Deferred"""
+    """spec: dict(kind=..., ...) -> Deferred (None for a one-way call)"""
     k = spec["kind"]
+    if k == "only":                 # the same call, fault and all, as a fire-and-forget callRemoteOnly
+        o = dict(rrs)
+        for name in ONE_WAY_TARGETS:
+            o[name] = _OneWay(rrs[name])
+        issue(o, spec["inner"])
+        return None
     if k == "multi":
         # several faults in ONE call: each of the three arguments may be fine, rejected by the callee's schema only, or
         # unserializable on the caller; the method may be unknown to the callee's interface; on the schema-less target
@@ -667,7 +714,9 @@ class DeliveryLog:
         self.inbound = []
         self.sent = []
         self.b = b
-        byreq = {}
+        byreq = {}          # request id -> record (for the answers / errors handed to send(): never id 0)
+        bydel = {}          # id(delivery) -> record: one-way calls all share request id 0
+        alive = []          # (keeps the deliveries alive, so that their ids stay distinct)
         ran = set()
         orig_s, orig_d, orig_f, orig_fin, orig_send = b.scheduleCall, b._doCall, b.callFailed, b._callFinished, b.send
 
@@ -692,6 +741,8 @@ class DeliveryLog:
             rec = dict(kind="delivered", reqid=delivery.reqID, schema=bool(delivery.methodSchema), ready=True, raises=False,
                        result_ok=True, answer=0, repr_raises=repr_raises, render_raises=False, log_local=log_local())
             byreq[delivery.reqID] = rec
+            bydel[id(delivery)] = rec
+            alive.append(delivery)
             self.inbound.append(rec)
             if rd is not None:
                 def mark(r, ent=ent, rec=rec):
@@ -703,9 +754,9 @@ class DeliveryLog:
             return orig_s(delivery, rd)
 
         def do(delivery):
-            ran.add(delivery.reqID)
+            ran.add(id(delivery))
             self.handled.append((0, delivery.reqID))
-            rec = byreq.get(delivery.reqID)
+            rec = bydel.get(id(delivery))
             try:
                 res = orig_d(delivery)
             except BaseException:
@@ -722,7 +773,7 @@ class DeliveryLog:
             return res
 
         def fin(res, delivery):
-            rec = byreq.get(delivery.reqID)
+            rec = bydel.get(id(delivery))
             try:
                 return orig_fin(res, delivery)
             except Violation:
@@ -731,9 +782,9 @@ class DeliveryLog:
                 raise
 
         def failed(f, reqID, delivery=None):
-            if delivery is not None and reqID not in ran:
+            if delivery is not None and id(delivery) not in ran:
                 self.handled.append((1, reqID))
-            rec = byreq.get(reqID)
+            rec = bydel.get(id(delivery)) if delivery is not None else byreq.get(reqID)
             if rec is not None:
                 try:
                     str(f.value)
@@ -796,7 +847,9 @@ def _run_batch(specs, opts):
             results[i] = r
             fired[i] += 1
         try:
-            issue(rrs, s).addBoth(got)
+            d = issue(rrs, s)
+            if d is not None:       # (a one-way call has no Deferred: nothing ever fires)
+                d.addBoth(got)
         except Exception as e:   # callRemote itself must not raise
             escaped = "callRemote raised %r" % (e,)
     try:
